@@ -5,6 +5,7 @@ import MosnVerif.Lemmas.DumpScript
 import MosnVerif.Lemmas.RouterLocksConc
 import MosnVerif.Lemmas.ResourceUpd
 import MosnVerif.Lemmas.DirHist
+import MosnVerif.Lemmas.VhostSpec
 /-!
 # C12 — runtime updates are coherent and reproducible from the dumped config (property theorems only)
 
@@ -761,6 +762,171 @@ example : Inv exOracle stA ∧ stA.wrappers "r" = some wA ∧
     (∀ t, named "r" ((fun t => if t = 0 then MOp.addRoute "a.b" (rt "y") else MOp.update cfgB) t)) :=
   ⟨inv_run _ _, by decide, fun t => by by_cases h : t = 0 <;> simp [h, named, cfgB]⟩
 end lockWitness
+
+/-! ## the virtual host's route table: in-place single-route updates vs lookups on the request path
+
+`VirtualHostImpl.RemoveAllRoutes` reslices `vh.routes` to length 0 IN PLACE and a following `AddRoute` appends into the same backing
+array; lookups are coherent only because they hold `vh.mutex.RLock()` for the whole walk. `Gen.VhostLocks` is the regenerated step
+program of every method of the type (locks, reads in place, header / map copies, in-place vs replacing writes) and of the callers
+in `routers_impl.go`; `Model/VhostTable.lean` runs any number of such programs over a shared backing array under every schedule,
+a walk reading ONE cell per step. -/
+section vhostTable
+open MosnVerif.Gen.VhostLocks MosnVerif.Model.VhostTable MosnVerif.Model.VhostSpec
+
+/-- **gen_vhost_discipline**: every method of `VirtualHostImpl` as regenerated has the lock discipline (reads of the table / index
+under the mutex in either mode, writes under the WRITE lock in one section per call, a header copy never outlives the read lock,
+a map copy is used only in the critical section that took it, no escape, no unknown in-place write); the constructor makes the map
+before anything else; nothing else in package `router` touches the two fields; `routersImpl`'s request path and single-route
+mutators look the virtual host up in tables that are never written after `NewRouters` and call exactly one table method on it. -/
+theorem gen_vhost_discipline : genDiscipline = true := by decide
+
+/-- **vhost_reader_sees_a_published_table**: ANY number of concurrent calls whose programs have the discipline (`args t` = the
+arguments of call `t`: any route, any index key, any request), any initial table and heap layout, EVERY schedule: every result a
+lookup (a call that never takes the write lock) has produced so far — a first-match walk, an all-matches walk, an index lookup —
+is exactly `answer` on ONE published view `pubs[o.at_]`: the table as it stood at the start or at a release of the write lock,
+namely the one that was current when the lookup took its read lock. No result mixes cells of two tables. -/
+theorem vhost_reader_sees_a_published_table {α K : Type} [DecidableEq K] (args : Nat → Arg α K) (progs : Nat → List Step)
+    (hd : ∀ t, disciplined (progs t) = true) (s0 : Shared α K) (sched : List Nat) (t : Nat) (hl : Step.lock ∉ progs t) :
+    let c := runSched false args (initConf progs s0) sched
+    ∀ o ∈ (c.th t).obs, ∃ v, c.g.pubs[o.at_]? = some v ∧ o.res = answer (args t) o.kv v :=
+  (schedule_facts false args progs s0 hd (fun e => by cases e) sched).2.2.2.1 t hl
+
+/-- **vhost_updates_serializable**: under the same hypotheses the published views are those of the writer calls run ONE AFTER THE
+OTHER in the order `done` in which they released the write lock (distinct calls): `pubs = [v₀, e₁ v₀, e₂ (e₁ v₀), …]` with `eₜ` the
+effect of call `t` run alone — every writer call is atomic for lookups — and while nobody holds the write lock the live table IS
+the last published view. -/
+theorem vhost_updates_serializable {α K : Type} [DecidableEq K] (args : Nat → Arg α K) (progs : Nat → List Step)
+    (hd : ∀ t, disciplined (progs t) = true) (s0 : Shared α K) (sched : List Nat) :
+    let c := runSched false args (initConf progs s0) sched
+    c.g.done.Nodup ∧ c.g.pubs = serialPubs (fun t => effect (progs t) (args t)) c.g.done (view s0) ∧
+    (c.g.writer = none → c.g.pubs.getLast? = some (view c.g.sh)) :=
+  let h := schedule_facts false args progs s0 hd (fun e => by cases e) sched
+  ⟨h.1, h.2.1, h.2.2.1⟩
+
+/-- **vhost_lookups_coherent** (the regenerated programs): any number of concurrent `GetRouteFromEntries` / `GetAllRoutesFromEntries`
+/ `GetRouteFromHeaderKV` / `AddRoute` / `RemoveAllRoutes` calls on one virtual host, every schedule: the published views are those
+of the sequential history `done` of the DECLARATIVE operations (`RemoveAllRoutes`: no route, empty index; `AddRoute r`: `r` appended
+and filed under its key), and every lookup result is the answer of one of them. -/
+theorem vhost_lookups_coherent {α K : Type} [DecidableEq K] (calls : Nat → Call α K) (s0 : Shared α K) (sched : List Nat) :
+    let c := runSched false (fun t => argOf (calls t)) (initConf (fun t => progOf (calls t)) s0) sched
+    c.g.done.Nodup ∧ c.g.pubs = serialPubs (fun t => specOf (calls t)) c.g.done (view s0) ∧
+    ∀ t, isLookup (calls t) = true → ∀ o ∈ (c.th t).obs, ∃ v, c.g.pubs[o.at_]? = some v ∧ o.res = answer (argOf (calls t)) o.kv v := by
+  intro c
+  obtain ⟨h1, h2, _, h4, _⟩ := schedule_facts false (fun t => argOf (calls t)) (fun t => progOf (calls t)) s0
+    (fun t => disciplined_progOf _) (fun e => by cases e) sched
+  refine ⟨h1, ?_, fun t ht => h4 t (lock_notMem_progOf _ ht)⟩
+  have heq : (fun t => effect (progOf (calls t)) (argOf (calls t))) = (fun t => specOf (calls t)) := by
+    funext t v; exact effect_progOf _ v
+  rw [← heq]; exact h2
+
+/-- **vhost_index_follows_routes**: when every `AddRoute` files its route under `keyOf` of that route (what `addRouteBase` computes
+from the route's header matchers) and the index is right at the start, then in EVERY published view of every schedule the index
+entry of each key is the LAST route of the table with that key: `GetRouteFromHeaderKV` answers from the same table as the walks. -/
+theorem vhost_index_follows_routes {α K : Type} [DecidableEq K] (keyOf : α → Option K) (calls : Nat → Call α K)
+    (hk : ∀ t, keyed keyOf (calls t)) (s0 : Shared α K) (h0 : IndexOk keyOf (view s0)) (sched : List Nat) :
+    let c := runSched false (fun t => argOf (calls t)) (initConf (fun t => progOf (calls t)) s0) sched
+    ∀ v ∈ c.g.pubs, IndexOk keyOf v := by
+  intro c v hv
+  have h2 := (vhost_lookups_coherent calls s0 sched).2.1
+  rw [h2] at hv
+  exact serialPubs_all (IndexOk keyOf) _ (fun t v h => indexOk_specOf keyOf _ (hk t) v h) _ _ h0 v hv
+
+/-- **replace_would_allow_escape**: the reader theorem again for the RELAXED discipline `disciplinedEsc` — a header copy taken
+under the read lock may be walked after the unlock — provided no writer shortens the slice in place: with `RemoveAllRoutes`
+installing a FRESH slice (`removeAllFresh`) the in-place `append` of `AddRoute` only ever writes cells at or beyond every length
+that was published for that array, so the escaping copy is a stable snapshot. The regenerated `removeAllRoutes` has NOT this
+discipline and `walkAfterUnlock` has not the code's: the theorems are about the combination of the two sites, each fine alone. -/
+theorem replace_would_allow_escape {α K : Type} [DecidableEq K] (args : Nat → Arg α K) (progs : Nat → List Step)
+    (hd : ∀ t, disciplinedEsc (progs t) = true) (s0 : Shared α K) (h0 : s0.hdr.ptr < s0.fresh) (sched : List Nat) (t : Nat)
+    (hl : Step.lock ∉ progs t) :
+    (let c := runSched true args (initConf progs s0) sched
+     ∀ o ∈ (c.th t).obs, ∃ v, c.g.pubs[o.at_]? = some v ∧ o.res = answer (args t) o.kv v) ∧
+    disciplinedEsc walkAfterUnlock = true ∧ disciplinedEsc removeAllFresh = true ∧ disciplinedEsc addRoute = true ∧
+    disciplinedEsc removeAllRoutes = false ∧ disciplined walkAfterUnlock = false :=
+  ⟨(schedule_facts true args progs s0 hd (fun _ => h0) sched).2.2.2.1 t hl, by decide, by decide, by decide, by decide, by decide⟩
+
+/-- routes are numbers; request of thread 0 matches routes 2 and 3 (old slots 1, 2), not the new routes 10, 11 -/
+def wArgs : Nat → Arg Nat Nat
+  | 0 => { mt := fun x => x == 2 || x == 3, first := true }
+  | 2 => { route := some 10 }
+  | 3 => { route := some 11 }
+  | _ => {}
+/-- thread 0 the lookup, 1 `RemoveAllRoutes`, 2 and 3 `AddRoute` -/
+def wProgs (reader removeAll : List Step) : Nat → List Step
+  | 0 => reader
+  | 1 => removeAll
+  | 2 => addRoute
+  | 3 => addRoute
+  | _ => []
+/-- the table `[1, 2, 3]` in an array of capacity 4 -/
+def wS0 : Shared Nat Nat := ⟨fun p => if p = 0 then [1, 2, 3, 0] else [], 1, ⟨0, 3⟩, fun _ => [], 1, 0⟩
+/-- the lookup up to and including slot 0; the three writer calls; the rest of the lookup -/
+def wSched : List Nat :=
+  List.replicate 5 0 ++ List.replicate 10 1 ++ List.replicate 15 2 ++ List.replicate 15 3 ++ List.replicate 10 0
+
+/-- **inplace_needs_whole_walk_lock** (machine-checked witness): `GetRouteFromEntries` copying the slice header under the read lock
+and walking after the unlock (`walkAfterUnlock`), against the REGENERATED writers, schedule `wSched`: the lookup reads slot 0 of
+`[1, 2, 3]`, then `RemoveAllRoutes; AddRoute 10; AddRoute 11` complete (slots 0, 1 overwritten, the copied length still 3), then it
+goes on: it answers route 3 — a removed route; the old table answers 2, every later table nothing: no published view answers 3.
+With the regenerated reader and the same schedule the writers stay blocked behind the read lock and the answer is 2, the old
+table's; with the header copy but a REPLACING `RemoveAllRoutes` the answer is 2 as well. -/
+theorem inplace_needs_whole_walk_lock :
+    (let c := runSched false wArgs (initConf (wProgs walkAfterUnlock removeAllRoutes) wS0) wSched
+     (c.th 0).obs.map (·.res) = [[3]] ∧ c.g.done = [1, 2, 3] ∧
+     c.g.pubs.map (answer (wArgs 0) false) = [[2], [], [], []]) ∧
+    (let c := runSched false wArgs (initConf (wProgs getRouteFromEntries removeAllRoutes) wS0) wSched
+     (c.th 0).obs.map (·.res) = [[2]] ∧ c.g.done = [] ∧ (c.th 1).todo = removeAllRoutes) ∧
+    (let c := runSched true wArgs (initConf (wProgs walkAfterUnlock removeAllFresh) wS0) wSched
+     (c.th 0).obs.map (·.res) = [[2]] ∧ c.g.done = [1, 2, 3] ∧ c.g.pubs.map (·.1) = [[1, 2, 3], [], [10], [10, 11]]) := by
+  decide
+
+/-- **spec_vht_holds_on_model**: the harness's `vht` cases — one lookup for request `q` (first match or all matches) on the table
+`old`, concurrent with `RemoveAllRoutes; AddRoute new₀; …; AddRoute newₖ₋₁` issued by one goroutine — under EVERY schedule of the
+regenerated programs: whenever the writer calls completed so far are the first `m` in issue order, every answer the lookup has
+produced satisfies the driver's predicate `ansAllowed` (it is the answer of ONE of the tables `old, [], [new₀], …, new`). -/
+theorem spec_vht_holds_on_model (old new : List R) (first : Bool) (q : Nat) (s0 : Shared R Nat) (h0 : (view s0).1 = old)
+    (sched : List Nat) (m : Nat) (hm : m ≤ new.length + 1) :
+    let c := runSched false (fun t => argOf (caseCalls new first q t)) (initConf (fun t => progOf (caseCalls new first q t)) s0) sched
+    c.g.done = List.range' 1 m → ∀ o ∈ (c.th 0).obs, ansAllowed old new first q (o.res.map (·.id)) = true :=
+  case_answers_allowed old new first q s0 h0 sched m hm
+
+-- non-vacuity: the hypotheses of the schedule theorems hold of the regenerated programs with concrete arguments, and the
+-- conclusion says something: after the whole of `wSched` plus the blocked writers' steps the lookup has answered 2 = the answer of
+-- pubs[0], three views were published after it, and the index of the last one files route 11 under key 7
+example : (∀ t, disciplined (wProgs getRouteFromEntries removeAllRoutes t) = true) ∧
+    Step.lock ∉ wProgs getRouteFromEntries removeAllRoutes 0 := by
+  refine ⟨fun t => ?_, by decide⟩
+  match t with
+  | 0 => decide
+  | 1 => decide
+  | 2 => decide
+  | 3 => decide
+  | _ + 4 => rfl
+example :
+    let args : Nat → Arg Nat Nat := fun t => if t = 3 then { route := some 11, key := some 7 } else wArgs t
+    let c := runSched false args (initConf (wProgs getRouteFromEntries removeAllRoutes) wS0)
+      (wSched ++ List.replicate 10 1 ++ List.replicate 15 2 ++ List.replicate 15 3)
+    (c.th 0).obs.map (fun o => (o.res, o.at_)) = [([2], 0)] ∧ c.g.done = [1, 2, 3] ∧
+    c.g.pubs = [([1, 2, 3], []), ([], []), ([10], []), ([10, 11], [(7, 11)])] ∧ view c.g.sh = ([10, 11], [(7, 11)]) := by decide +kernel
+-- replace_would_allow_escape's hypotheses
+example : (∀ t, disciplinedEsc (wProgs walkAfterUnlock removeAllFresh t) = true) ∧ wS0.hdr.ptr < wS0.fresh := by
+  refine ⟨fun t => ?_, by decide⟩
+  match t with
+  | 0 => decide
+  | 1 => decide
+  | 2 => decide
+  | 3 => decide
+  | _ + 4 => rfl
+-- vhost_index_follows_routes' hypotheses: the empty virtual host, routes keyed by their residue
+example : IndexOk (fun x : Nat => if x % 2 = 0 then some (x / 2) else none) (view (emptyShared : Shared Nat Nat)) ∧
+    keyed (fun x : Nat => if x % 2 = 0 then some (x / 2) else none) (Call.add 10 (some 5) : Call Nat Nat) :=
+  ⟨fun q => by simp [view, emptyShared, tableOf, lookupK], by simp [keyed]⟩
+-- spec_vht_holds_on_model's hypotheses and a table the predicate rejects: the mixed answer of the witness
+example : ansAllowed [⟨"a", false, [1]⟩, ⟨"b", false, [0]⟩, ⟨"c", false, [0]⟩] [⟨"x", false, [1]⟩, ⟨"y", false, [1]⟩] true 0 ["c"] = false ∧
+    ansAllowed [⟨"a", false, [1]⟩, ⟨"b", false, [0]⟩, ⟨"c", false, [0]⟩] [⟨"x", false, [1]⟩, ⟨"y", false, [1]⟩] true 0 ["b"] = true ∧
+    ansAllowed [⟨"a", false, [1]⟩, ⟨"b", false, [0]⟩, ⟨"c", false, [0]⟩] [⟨"x", false, [1]⟩, ⟨"y", false, [1]⟩] true 0 [] = true := by
+  decide
+end vhostTable
 
 /-! ## resource thresholds of an updated cluster (circuit breakers): thresholds follow the latest configuration, counters survive
 
